@@ -160,3 +160,50 @@ From PV Require Import C12.IntrTable C12.GenTables C12.IntrOblig.
 Theorem C12_inquiry_flags_sound : forallb flag_ok gen_intrinsics = true.
 Proof. exact inquiry_flags_sound. Qed.
 Print Assumptions C12_inquiry_flags_sound.
+
+(* ---- the extraction protocol as PSyDataNode.lower_to_language_level emits it (model C12/Protocol.v; compared with the calls
+   read from the generated code on every run) *)
+From PV Require Import C12.Protocol.
+Theorem C12_protocol_records_reported : forall ins outs,
+  provided_before (lower_extract ins outs) = ins /\
+  provided_after (lower_extract ins outs) = outs /\
+  declared (lower_extract ins outs) = ins ++ outs /\
+  announced (lower_extract ins outs) = Some (length ins, length outs).
+Proof. exact protocol_records_reported. Qed.
+Print Assumptions C12_protocol_records_reported.
+
+(* a region without inputs still declares and provides every output *)
+Theorem C12_outputs_provided_without_inputs : forall outs,
+  provided_after (lower_extract [] outs) = outs /\ declared (lower_extract [] outs) = outs /\
+  announced (lower_extract [] outs) = Some (0%nat, length outs).
+Proof. exact outputs_provided_without_inputs. Qed.
+Print Assumptions C12_outputs_provided_without_inputs.
+
+(* ---- regions containing DO WHILE directly (fuelled semantics C12/While.v: wexec / wloop; OutOfFuel distinct) *)
+From PV Require Import C12.While C12.WhileReplay.
+Theorem C12_replay_sound_any_while : forall (V : list name) f ws s1 s1' tr c s2,
+  wexec f ws s1 = Ok s1' tr c ->
+  (forall l, In l (exposed tr) -> In (fst l) V) ->
+  bnd s2 = bnd s1 -> agree_on V s1 s2 ->
+  exists s2', wexec f ws s2 = Ok s2' tr c /\ bnd s2' = bnd s1' /\
+    (forall l, In (fst l) V \/ In l (writes tr) -> val s2' l = val s1' l).
+Proof. exact replay_sound_any_while. Qed.
+Print Assumptions C12_replay_sound_any_while.
+
+Theorem C12_while_same_iterations : forall (V : list name) n c body s1 s1' tr c0 s2,
+  wloop n c body s1 = Ok s1' tr c0 ->
+  (forall l, In l (exposed tr) -> In (fst l) V) ->
+  bnd s2 = bnd s1 -> agree_on V s1 s2 ->
+  witers n c body s2 = witers n c body s1.
+Proof. exact while_same_iterations. Qed.
+Print Assumptions C12_while_same_iterations.
+
+Example C12_while_runs :
+  let c := EBin And (EBin Gt (EIdx 0%nat [ELit 1%Z]) (ELit 1%Z)) (EBin Lt (EVar 1%nat) (ELit 3%Z)) in
+  let body := [SAssign 0%nat [ELit 1%Z] (EBin Sub (EIdx 0%nat [ELit 1%Z]) (ELit 1%Z)); SAssign 1%nat [] (EBin Add (EVar 1%nat) (ELit 1%Z))] in
+  let st := store_of [((0%nat, [1%Z]), 3%Z)] [] in
+  witers 10 c body st = 2%nat /\
+  exists s' tr, wexec 10 [WWhile c body] st = Ok s' tr CNormal /\ val s' (0%nat, [1%Z]) = 1%Z /\ val s' (1%nat, []) = 2%Z /\
+  wexec 1 [WWhile c body] st = OutOfFuel.
+Proof. exact while_runs. Qed.
+Print Assumptions C12_while_runs.
